@@ -2,7 +2,7 @@
 //! counts calls, and returns `Err` exactly where the run's fault plan says so. Also: the error
 //! payload types and the type-agnostic search for a fault tag inside a surfaced error.
 
-use crate::spec::{FaultPlan, Payload, Problem};
+use crate::spec::{Payload, Problem};
 use nalgebra::ComplexField;
 use num_complex::Complex;
 use std::error::Error;
@@ -49,6 +49,8 @@ pub fn rhs<N: Scalar>(p: Problem, t: f64, y: &[N], out: &mut Vec<N>) {
             Problem::Quadratic => N::from_real(-2.0 * t + i as f64),
             Problem::Growing => y[i] * N::from_real(1.5),
             Problem::Oscillating => N::from_real((10.0 * t + i as f64).cos()),
+            Problem::BlowUp => y[i].exp(),
+            Problem::StiffCubic => y[i] * y[i] * y[i] * N::from_real(-1000.0),
         };
         out.push(v);
     }
@@ -284,11 +286,6 @@ pub fn is_original(b: &(dyn Error + 'static), p: Payload, tag: u64) -> bool {
                 && b.to_string() == format!("temporary failure, transient, please retry (simfault:{:016x})", tag)
         }
     }
-}
-
-/// Decision of the fault plan for one call; separated so that it can be unit-tested.
-pub fn plan_fails(plan: &FaultPlan, call: u64) -> bool {
-    plan.fails(call)
 }
 
 /// Panic payload used by the stub when the hard derivative-call budget is exhausted, so that a
